@@ -82,6 +82,17 @@ def _validate_one(chk: Check, path: Path, n: int, props: set[str], family: str, 
     chk.transitions += res.generated
     chk.mc_runs.append({"spec": spec, "cfg": f"trace:{family}:n{n}", "generated": res.generated, "distinct": res.distinct,
                         "wall_s": round(res.wall, 1)})
+    # vacuity guard: how many recorded events of each kind the clauses of this run were evaluated on
+    try:
+        for T in json.loads(path.read_text())["traces"]:
+            evs = T.get("events")
+            if isinstance(evs, list) and evs and isinstance(evs[0], dict):
+                for e in evs:
+                    chk.count(f"{spec}:{e.get('op', e.get('kind', 'event'))}")
+            else:
+                chk.count(f"{spec}:{T.get('kind', 'trace')}")
+    except Exception:  # noqa: BLE001
+        pass
     verdicts = vlib.extract_tagged(res.out, "VERDICT")
     mine = [v for v in verdicts if v[3] == chk.prop]
     if mine:
